@@ -201,6 +201,39 @@ func runC17(c *Ctx) {
 		c.Require("C17.R12 request-id-unique", FuncKey(nr)+": Request.ID", p.Pos(nr.Pos()), "the request ID is drawn from a uniqueness source (uuid / crypto/rand / atomic counter)", okU, "ID = "+val)
 	}
 
+	// ---- R14 the responder's writer is made for this request. The handler writes the payload into
+	// it and respond() sends what it holds; requests are served concurrently (one goroutine per
+	// stream), so a writer — or a buffer inside it — that outlives the request and is handed to the
+	// next one lets one request's reply carry another's payload under the right request ID.
+	{
+		nw := 0
+		for _, call := range AllCalls(onReq) {
+			cc := call.Common()
+			if cc.IsInvoke() || cc.StaticCallee() != nil || len(cc.Args) != 2 {
+				continue
+			}
+			if !strings.Contains(cc.Args[0].Type().String(), "ResponseWriter") && !strings.Contains(cc.Args[0].Type().String(), "responseWriter") {
+				continue
+			}
+			nw++
+			v := cc.Args[0]
+			for {
+				if mi, ok := v.(*ssa.MakeInterface); ok {
+					v = mi.X
+					continue
+				}
+				break
+			}
+			root := valueRoot(v)
+			al, fresh := root.(*ssa.Alloc)
+			if fresh {
+				fresh = al.Heap || true
+			}
+			c.Require("C17.R14 writer-per-request", FuncKey(onReq)+": writer handed to the handler", p.InstrPos(call), "the response writer given to the handler is allocated for this request (not taken from a pool or a field shared between requests)", fresh, fmt.Sprintf("writer = %s (%T)", ff0(onReq).Term(v).String(), root))
+		}
+		c.MinInstances("C17.R14 writer-per-request", nw, 1)
+	}
+
 	// ---- R11 the registered channel is made for this request: nothing delivered for an
 	// earlier request can be buffered in it
 	{
@@ -489,3 +522,5 @@ func structTag(p *Program, pkgRel, name, field string) string {
 	}
 	return ""
 }
+
+func ff0(fn *ssa.Function) *FuncFacts { return factsOf(fn) }
